@@ -39,6 +39,8 @@ def cursorTests (path : String) : IO Unit := do
         showU (Src.OplParserFunctions.opl_parse_space_defined fuel buf 0) (Src.OplParserFunctions.opl_parse_space fuel buf 0)
       if kind == "oplnonempty" then
         showI (Src.OplParserFunctions.opl_non_empty_defined buf 0) (.normal 0 (if Src.OplParserFunctions.opl_non_empty buf 0 then 1 else 0))
+      if kind == "utf8" then
+        showI (Src.StringUtil.next_utf8_codepoint_defined buf 0 (buf.length - 1)) (Src.StringUtil.next_utf8_codepoint buf 0 (buf.length - 1))
       if kind == "fracsec" then
         showB (Src.Timestamp.fractional_seconds_defined fuel buf 0) (Src.Timestamp.fractional_seconds fuel buf 0)
       if kind == "coord" then
